@@ -9,7 +9,7 @@
    No axioms. *)
 From Coq Require Import ZArith List Bool Arith Lia.
 From Coq Require Import ZifyBool ZifyNat.
-From JLS Require Import Generated Spec PyramidModel.
+From JLS Require Import Generated PyramidModel.
 Import ListNotations.
 Local Open Scope Z_scope.
 
@@ -725,7 +725,7 @@ Definition DataInv (st : py_wr) (blks : list (Z * bool)) : Prop :=
   py_head_get st 0 = nth 0 (ents (pw_disk st) 1 ++ pl_idx (py_lvl_get st 1)) 0 /\
   (forall c, In c (pw_disk st) -> pc_kind c = PyData ->
      exists i, nth_error (ents (pw_disk st) 1 ++ pl_idx (py_lvl_get st 1)) i = Some (pc_off c)) /\
-  (forall c, In c (pw_disk st) -> (py_chunk_level c <= 14)%nat).
+  (forall c, In c (pw_disk st) -> (py_chunk_level c <= 14)%nat /\ (pc_kind c = PyData \/ (1 <= py_chunk_level c)%nat)).
 
 Definition RunInv (st : py_wr) (blks : list (Z * bool)) : Prop :=
   OffsOK st /\ DataInv st blks /\ Forall (fun b => fst b = py_spd d) blks /\
@@ -834,7 +834,7 @@ Lemma blk_after_data : forall st st1 st2 blks n om newd posv,
   py_summary1 d n posv st1 = PyOk st2 ->
   LvlClose 1 st2 (blks ++ [(n, om)]) /\ (n = py_spd d -> LvlRun 1 st2 (blks ++ [(n, om)])) /\
   (forall L, (2 <= L)%nat -> LvlRun L st2 (blks ++ [(n, om)])) /\ OffsOK st2 /\
-  (exists new, pw_disk st2 = pw_disk st1 ++ new /\ forall c, In c new -> (py_chunk_level c <= 14)%nat /\ pc_kind c <> PyData) /\
+  (exists new, pw_disk st2 = pw_disk st1 ++ new /\ forall c, In c new -> (1 <= py_chunk_level c <= 14)%nat /\ pc_kind c <> PyData) /\
   py_head_get st2 0 = py_head_get st1 0 /\ pw_dhead st2 = pw_dhead st1 /\ pw_dts st2 = pw_dts st1 /\
   ents (pw_disk st2) 1 ++ pl_idx (py_lvl_get st2 1) = (ents (pw_disk st) 1 ++ pl_idx (py_lvl_get st 1)) ++ [posv] /\
   pw_pos st1 <= pw_pos st2.
@@ -1006,9 +1006,9 @@ Proof.
       - destruct (D5 c Hc Hk) as (i & Hi). exists i. rewrite nth_error_app1; [exact Hi|eapply nth_error_lt; eauto].
       - destruct Hnewd as [(-> & _)|(-> & _)]; [destruct Hc|]. destruct Hc as [<-|[]]. cbn [mk_chunk pc_off].
         exists (length (ents (pw_disk st) 1 ++ pl_idx (py_lvl_get st 1))). apply nth_error_snoc_last. }
-    intros c Hc. rewrite Hd2, Hd1 in Hc. apply in_app_or in Hc. destruct Hc as [Hc|Hc]; [|destruct (Hnew2 c Hc); auto].
+    intros c Hc. rewrite Hd2, Hd1 in Hc. apply in_app_or in Hc. destruct Hc as [Hc|Hc]; [|destruct (Hnew2 c Hc); split; [lia|right; lia]].
     apply in_app_or in Hc. destruct Hc as [Hc|Hc]; [auto|].
-    destruct Hnewd as [(-> & _)|(-> & _)]; [destruct Hc|]. destruct Hc as [<-|[]]. cbn. lia. }
+    destruct Hnewd as [(-> & _)|(-> & _)]; [destruct Hc|]. destruct Hc as [<-|[]]. cbn. split; [lia|left; reflexivity]. }
   assert (Hbok : BlksOK (blks ++ [(n, om)])).
   { split; [destruct blks; discriminate|]. intros i n0 om0 Hi.
     destruct (Nat.lt_ge_cases i (length blks)) as [Hlt|Hge].
@@ -1219,7 +1219,7 @@ Definition DataFin (st : py_wr) (blks : list (Z * bool)) : Prop :=
   (forall n om, nth_error blks 0 = Some (n, om) -> om = false) /\
   py_head_get st 0 = nth 0 (ents (pw_disk st) 1) 0 /\
   (forall c, In c (pw_disk st) -> pc_kind c = PyData -> exists i, nth_error (ents (pw_disk st) 1) i = Some (pc_off c)) /\
-  (forall c, In c (pw_disk st) -> (py_chunk_level c <= 14)%nat).
+  (forall c, In c (pw_disk st) -> (py_chunk_level c <= 14)%nat /\ (pc_kind c = PyData \/ (1 <= py_chunk_level c)%nat)).
 
 Definition FinInv (st : py_wr) (blks : list (Z * bool)) (T : nat) : Prop :=
   OffsOK st /\ DataFin st blks /\ BlksOK blks /\ (1 <= T <= 14)%nat /\
@@ -1285,7 +1285,7 @@ Proof.
     destruct (idxs (pw_disk st) 15) as [|c r] eqn:E; [congruence|].
     assert (Hin : In c (idxs (pw_disk st) 15)) by (rewrite E; left; auto).
     apply idxs_In in Hin. destruct Hin as (Hin & Hk). destruct Hdata as (_ & _ & _ & _ & _ & D6).
-    specialize (D6 c Hin). unfold py_chunk_level in D6. rewrite Hk in D6. lia.
+    destruct (D6 c Hin) as (D6a & _). unfold py_chunk_level in D6a. rewrite Hk in D6a. lia.
   - cbn [py_close_loop] in Hrun. replace (16 - L)%nat with (S k) in Hrun by lia. unfold py_bind in Hrun.
     destruct (py_wr_summary (S k) d L st) as [st1|e] eqn:Hws; [|discriminate].
     destruct (close_step L k st st1 blks HL ltac:(lia) Hoffs Hcl Hup Hws)
@@ -1313,7 +1313,7 @@ Proof.
         - intros c Hc Hk. rewrite HB. rewrite Hd1 in Hc. apply in_app_or in Hc. destruct Hc as [Hc|Hc]; [apply D5; auto|].
           destruct (Hnew c Hc) as (_ & Hnd). congruence.
         - intros c Hc. rewrite Hd1 in Hc. apply in_app_or in Hc. destruct Hc as [Hc|Hc]; [apply D6; auto|].
-          destruct (Hnew c Hc) as ((_ & Hl) & _). exact Hl. }
+          destruct (Hnew c Hc) as ((Hl0 & Hl) & _). split; [exact Hl|right; lia]. }
       split; [exact Hbok|]. split; [|split; [exact A3|exact A4]].
       intros M HM. destruct (Nat.eq_dec M L) as [->|HML]; [|apply Hlow1; lia].
       split; [exact A1|]. split; [exact A2|].
@@ -1348,6 +1348,321 @@ Proof.
   unfold py_close in Hrun. eapply (climb_loop 15 1 st1 st); eauto.
   split; [exact Ho|]. split; [exact Hd|]. split; [exact Hb|]. split; [intros M HM; lia|]. split; [exact Hc1|].
   intros M HM. apply Hl. lia.
+Qed.
+
+
+(* ------------------------------------------------------------------ 4b. the only writer fault is level[16] *)
+Definition only_oob (r : py_res py_wr) : Prop :=
+  match r with PyOk _ => True | PyErr e => e = PE_Fault PF_LevelOOB end.
+
+Lemma append_ok : forall M pos add its sts st,
+  Z.of_nat (length (pl_idx (py_lvl_get st M))) < py_cap d M ->
+  pl_sum (py_lvl_get st M) + add <= py_eps d ->
+  py_append d M pos add its sts st = PyOk (py_lvl_set st M (appended (py_lvl_get st M) pos add its sts)).
+Proof.
+  intros M pos add its sts st H1 H2. unfold py_append.
+  replace (py_cap d M <=? Z.of_nat (length (pl_idx (py_lvl_get st M)))) with false by (symmetry; apply Z.leb_gt; lia).
+  replace (py_eps d <? pl_sum (py_lvl_get st M) + add) with false by (symmetry; apply Z.ltb_ge; lia).
+  reflexivity.
+Qed.
+
+Lemma flush_run_total : forall f L st blks,
+  (L + S f = 16)%nat -> (1 <= L)%nat -> OffsOK st ->
+  FullPre L st blks -> (forall M, (L < M)%nat -> LvlRun M st blks) ->
+  only_oob (py_wr_summary (S f) d L st).
+Proof.
+  induction f as [|f IH]; intros L st blks HLf HL Hoffs Hpre Hup;
+    destruct Hpre as (P1 & P2 & P3 & P4 & P5 & P6 & P7);
+    pose proof (py_cap_pos d L Hcons) as Hcp;
+    destruct (py_cons_facts d Hcons) as (_ & _ & _ & _ & _ & Hsumdf & Hq & Hepsq & Heps & _);
+    rewrite wr_summary_unfold;
+    (replace (pl_sum (py_lvl_get st L) =? 0) with false by (symmetry; apply Z.eqb_neq; lia));
+    cbn [andb];
+    destruct (py_wr_chunks L st) as (st2, pos) eqn:Hch; [reflexivity|].
+  assert (Hne : pl_idx (py_lvl_get st L) <> []) by (intro E; rewrite E in P3; cbn in P3; lia).
+  assert (H1b : L = 1%nat -> exists n om,
+     nth_error blks (length (idxs (pw_disk st) L) * Z.to_nat (py_cap d 1) + length (pl_idx (py_lvl_get st L)) - 1) = Some (n, om) /\
+     pl_sum (py_lvl_get st L) = py_epd d * (Z.of_nat (length (pl_idx (py_lvl_get st L))) - 1) + n / py_sdf d).
+  { intro E1. destruct (P7 E1) as (n & om & Hn & He). exists n, om. split; auto. rewrite P4, P3. subst L. exact He. }
+  destruct (Hup (S L) ltac:(lia)) as (HS1 & HS2 & (E1 & E2 & E3)).
+  replace (py_epc d (S L)) with (py_q d) in E2 by (destruct L; [lia|reflexivity]).
+  assert (Hcap2 : py_cap d (S L) = py_sumdf d) by (apply py_cap_ge2; lia).
+  assert (Hadd : pl_sum (py_lvl_get st L) / py_sumdf d = py_q d).
+  { rewrite P4, Hepsq, Z.mul_comm, Z.div_mul by lia. reflexivity. }
+  (* the feed cannot overflow *)
+  destruct (wr_chunks_spec L st Hne) as (st2' & Ech & Hd2 & Hp2 & Hl2 & _). rewrite Hch in Ech. injection Ech as <- ->.
+  assert (Hg2 : forall M, py_lvl_get st2 M = py_lvl_get st M) by (intro M; unfold py_lvl_get; rewrite Hl2; reflexivity).
+  unfold py_bind.
+  assert (Hfeed : py_feed d (S L) (pw_pos st) st2 =
+            PyOk (py_lvl_set st2 (S L) (appended (py_lvl_get st2 (S L)) (pw_pos st) (pl_sum (py_lvl_get st2 L) / py_sumdf d)
+                                      (pl_its (py_lvl_get st2 L)) (pl_sts (py_lvl_get st2 L))))).
+  { unfold py_feed. cbn [pred]. apply append_ok; rewrite !Hg2; [lia|]. rewrite Hadd, E2, Hepsq. rewrite Hcap2 in E1. nia. }
+  rewrite Hfeed. set (st3 := py_lvl_set st2 (S L) _) in *.
+  destruct (write_feed_step L st st2 st3 (pw_pos st) blks HL Hoffs P1 P2 Hne ltac:(lia) P5 P6 H1b (Hup (S L) ltac:(lia)) Hch Hfeed)
+    as (_ & Hd3 & Hoffs3 & W1 & W2 & W3 & G1 & G2 & G3 & Hl3 & Hts3 & Hl3' & Hh3 & Hdts3 & Hdh3 & Hup3).
+  assert (Hsum3 : pl_sum (py_lvl_get st3 (S L)) = (Z.of_nat (length (pl_idx (py_lvl_get st (S L)))) + 1) * py_q d).
+  { rewrite Hl3. cbn [appended pl_sum]. rewrite Hadd, E2. ring. }
+  assert (Hlen3 : Z.of_nat (length (pl_idx (py_lvl_get st3 (S L)))) = Z.of_nat (length (pl_idx (py_lvl_get st (S L)))) + 1).
+  { rewrite Hl3. cbn [appended pl_idx]. rewrite app_length. cbn [length]. lia. }
+  destruct (py_eps d <=? pl_sum (py_lvl_get st3 (S L))) eqn:Hflush; [|exact I].
+  assert (Hfull3 : Z.of_nat (length (pl_idx (py_lvl_get st3 (S L)))) = py_cap d (S L)).
+  { apply Z.leb_le in Hflush. rewrite Hsum3, Hepsq in Hflush. rewrite Hlen3, Hcap2. rewrite Hcap2 in E1. nia. }
+  assert (Hrec : only_oob (py_wr_summary (S f) d (S L) st3)).
+  { apply (IH (S L) st3 blks); auto; try lia.
+    - split; [exact G1|]. split; [exact G2|]. split; [exact Hfull3|]. split.
+      { rewrite Hsum3, Hepsq. rewrite Hlen3, Hcap2 in Hfull3. rewrite <- Hfull3. ring. }
+      split; [apply Hts3|]. split; [apply Hts3|]. intro; lia.
+    - intros M HM. apply Hup3; [lia|]. apply Hup. lia. }
+  destruct (py_wr_summary (S f) d (S L) st3); [exact I|exact Hrec].
+Qed.
+
+Lemma summary1_total : forall st st1 blks n om newd posv,
+  RunInv st blks -> 1 <= n <= py_spd d ->
+  pw_disk st1 = pw_disk st ++ newd ->
+  ((newd = [] /\ posv = 0 /\ om = true) \/
+   (newd = [mk_chunk posv PyData (t0 + Z.of_nat (length blks) * py_spd d) n []] /\ om = false)) ->
+  OffsOK st1 -> pw_lvls st1 = pw_lvls st ->
+  (forall M, (1 <= M)%nat -> py_head_get st1 M = py_head_get st M) -> pw_dts st1 = pw_dts st ->
+  only_oob (py_summary1 d n posv st1).
+Proof.
+  intros st st1 blks n om newd posv (Hoffs & Hdata & Hfull & Hlv) Hn Hd1 Hnew Hoffs1 Hl1 Hh1 Hdts1.
+  destruct Hdata as (D1 & _).
+  destruct (py_cons_facts d Hcons) as (Hsdf & Hepd & Hspd & Hcap1 & Heps1 & _).
+  destruct (div_sdf_bound n Hn) as (Hdiv & Hdiv1 & Hdiv2).
+  assert (Hg1 : forall M, py_lvl_get st1 M = py_lvl_get st M) by (intro M; unfold py_lvl_get; rewrite Hl1; reflexivity).
+  assert (Hkd : forall c, In c newd -> pc_kind c = PyData).
+  { intros c Hc. destruct Hnew as [(-> & _)|(-> & _)]; [destruct Hc|]. destruct Hc as [<-|[]]. reflexivity. }
+  assert (Hup1 : forall M, (2 <= M)%nat -> LvlRun M st1 (blks ++ [(n, om)])).
+  { intros M HM. unfold LvlRun. rewrite Hd1, Hg1, Hh1 by lia. apply LvlRunC_frame.
+    - eapply LvlRun_blks_ext; eauto. apply Hlv. lia.
+    - intros c Hc. rewrite (Hkd c Hc). split; discriminate. }
+  destruct (Hlv 1%nat ltac:(lia)) as (L1 & F1 & (E1 & E2 & E3)). cbn [py_epc] in E2.
+  destruct (LvlDisk1_blk _ _ _ _ newd posv n om L1 Hnew) as (L1' & Hi1).
+  assert (F1' : AllFull 1 (pw_disk st1)).
+  { rewrite Hd1. apply AllFull_frame; auto. intros c Hc. rewrite (Hkd c Hc). discriminate. }
+  unfold py_summary1, py_bind.
+  rewrite append_ok; [|rewrite Hg1; lia|rewrite Hg1, E2, Heps1; nia].
+  rewrite Hg1.
+  set (lv' := appended (py_lvl_get st 1) posv (n / py_sdf d) (pw_dts st1) (pw_dts st1)) in *.
+  set (st1a := py_lvl_set st1 1 lv') in *.
+  assert (Hla : py_lvl_get st1a 1 = lv') by apply lvl_get_set_eq.
+  assert (Hla' : forall M, M <> 1%nat -> py_lvl_get st1a M = py_lvl_get st M).
+  { intros M HM. unfold st1a. rewrite lvl_get_set_neq by congruence. apply Hg1. }
+  assert (Hlen' : Z.of_nat (length (pl_idx lv')) = Z.of_nat (length (pl_idx (py_lvl_get st 1))) + 1).
+  { unfold lv'. cbn [appended pl_idx]. rewrite app_length. cbn [length]. lia. }
+  assert (Hsum' : pl_sum lv' = Z.of_nat (length (pl_idx (py_lvl_get st 1))) * py_epd d + n / py_sdf d).
+  { unfold lv'. cbn [appended pl_sum]. rewrite E2. reflexivity. }
+  assert (Hlb : length (ents (pw_disk st) 1 ++ pl_idx (py_lvl_get st 1)) = length blks) by (destruct L1 as (_ & (Hl & _) & _); exact Hl).
+  assert (Hel : length (ents (pw_disk st) 1) = (length (idxs (pw_disk st) 1) * Z.to_nat (py_cap d 1))%nat).
+  { apply AllFull_len_ents; auto. destruct L1 as (Hck & _). intros j c Hj. destruct (Hck j c Hj) as (_ & C & _). exact C. }
+  assert (Hts' : pl_its lv' = t0 + Z.of_nat (length (idxs (pw_disk st1) 1)) * py_span d 1 /\ pl_sts lv' = pl_its lv').
+  { unfold lv'. cbn [appended pl_its pl_sts]. rewrite Hd1, Hi1.
+    destruct (pl_idx (py_lvl_get st 1)) as [|e es] eqn:EP; cbn [py_nilb].
+    - split; [|reflexivity]. rewrite Hdts1, D1. rewrite app_nil_r in Hlb. rewrite <- Hlb, Hel.
+      rewrite py_span_eq, py_step_1 by lia. rewrite Nat2Z.inj_mul, Z2Nat.id by lia. ring.
+    - apply E3. discriminate. }
+  assert (Hidx1a : idxs (pw_disk st1a) 1 = idxs (pw_disk st) 1) by (change (pw_disk st1a) with (pw_disk st1); rewrite Hd1; exact Hi1).
+  assert (Hlast : nth_error (blks ++ [(n, om)]) (length (idxs (pw_disk st) 1) * Z.to_nat (py_cap d 1) + length (pl_idx lv') - 1) = Some (n, om)).
+  { rewrite app_length in Hlb. replace (length (idxs (pw_disk st) 1) * Z.to_nat (py_cap d 1) + length (pl_idx lv') - 1)%nat with (length blks) by lia.
+    apply nth_error_snoc_last. }
+  assert (HLd1a : LvlDisk 1 (pw_disk st1a) (blks ++ [(n, om)]) (py_head_get st1a 1) (pl_idx (py_lvl_get st1a 1))).
+  { rewrite Hla. change (pw_disk st1a) with (pw_disk st1). change (py_head_get st1a 1) with (py_head_get st1 1).
+    rewrite Hh1, Hd1 by lia. exact L1'. }
+  assert (Hup1a : forall M, (2 <= M)%nat -> LvlRun M st1a (blks ++ [(n, om)])).
+  { intros M HM. unfold LvlRun. rewrite Hla' by lia. rewrite <- Hg1. apply Hup1; auto. }
+  assert (Hoffs1a : OffsOK st1a) by exact Hoffs1.
+  destruct (py_eps d <=? pl_sum (py_lvl_get st1a 1)) eqn:Hflush; [|exact I].
+  apply Z.leb_le in Hflush. rewrite Hla, Hsum' in Hflush.
+  assert (Hlenc : Z.of_nat (length (pl_idx (py_lvl_get st 1))) + 1 = py_cap d 1) by nia.
+  assert (Hne : n / py_sdf d = py_epd d) by nia.
+  apply (flush_run_total 14 1 st1a (blks ++ [(n, om)])); auto; try lia; try (intros M HM; apply Hup1a; lia).
+  split; [exact HLd1a|]. split; [exact F1'|]. rewrite Hla. split; [lia|]. split; [rewrite Hsum'; nia|].
+    split; [rewrite Hidx1a; rewrite Hd1, Hi1 in Hts'; apply Hts'|]. split; [apply Hts'|].
+    intros _. exists n, om. rewrite Hidx1a. split; [exact Hlast|]. rewrite Hne. nia.
+Qed.
+
+Lemma wr_data_total : forall st blks n req,
+  RunInv st blks -> 1 <= n <= py_spd d -> only_oob (py_wr_data d n req st).
+Proof.
+  intros st blks n req Hinv Hn.
+  pose proof Hinv as (Hoffs & (D1 & D2 & D3 & D4 & D5 & D6) & Hfull & Hlv).
+  destruct Hoffs as (Hpos & Hoff & Hnd).
+  unfold py_wr_data. replace (n =? 0) with false by (symmetry; apply Z.eqb_neq; lia).
+  set (om := req && negb (pw_dhead st =? 0)) in *.
+  unfold py_bind.
+  match goal with |- only_oob (match py_summary1 d n ?pv ?s1 with _ => _ end) => set (posv := pv) in *; set (st1 := s1) in * end.
+  set (newd := if om then [] else [mk_chunk (pw_pos st) PyData (t0 + Z.of_nat (length blks) * py_spd d) n []]).
+  assert (Hd1 : pw_disk st1 = pw_disk st ++ newd).
+  { unfold st1, newd. destruct om; [rewrite app_nil_r; reflexivity|].
+    cbn [pw_disk]. destruct (set_head_fields (py_emit st PyData (pw_dts st) n []) 0 (pw_pos st)) as (F1 & _). rewrite F1. cbn. rewrite D1. reflexivity. }
+  assert (Hnewd : (newd = [] /\ posv = 0 /\ om = true) \/
+                  (newd = [mk_chunk posv PyData (t0 + Z.of_nat (length blks) * py_spd d) n []] /\ om = false)).
+  { unfold newd, posv. destruct om; [left; auto|right; auto]. }
+  assert (Hl1 : pw_lvls st1 = pw_lvls st).
+  { unfold st1. destruct om; [reflexivity|]. cbn [pw_lvls].
+    destruct (set_head_fields (py_emit st PyData (pw_dts st) n []) 0 (pw_pos st)) as (_ & _ & F3 & _). rewrite F3. reflexivity. }
+  assert (Hh1 : forall M, py_head_get st1 M = if om then py_head_get st M else
+                    if (Nat.eqb M 0) && (py_head_get st 0 =? 0) then pw_pos st else py_head_get st M).
+  { intro M. unfold st1. destruct om; [reflexivity|].
+    exact (head_get_set_head (py_emit st PyData (pw_dts st) n []) 0 (pw_pos st) M). }
+  assert (Hdts1 : pw_dts st1 = pw_dts st).
+  { unfold st1. destruct om; [reflexivity|]. cbn [pw_dts].
+    destruct (set_head_fields (py_emit st PyData (pw_dts st) n []) 0 (pw_pos st)) as (_ & _ & _ & F4 & _). rewrite F4. reflexivity. }
+  assert (Hp1 : pw_pos st1 = if om then pw_pos st else pw_pos st + 1).
+  { unfold st1. destruct om; [reflexivity|]. cbn [pw_pos].
+    destruct (set_head_fields (py_emit st PyData (pw_dts st) n []) 0 (pw_pos st)) as (_ & F2 & _). rewrite F2. reflexivity. }
+  assert (Hoffs1 : OffsOK st1).
+  { unfold OffsOK. rewrite Hd1, Hp1. unfold newd. destruct om.
+    - rewrite app_nil_r. auto.
+    - split; [lia|]. split.
+      + intros c Hc. apply in_app_or in Hc. destruct Hc as [Hc|[<-|[]]]; [specialize (Hoff c Hc); lia|cbn; lia].
+      + rewrite map_app. cbn [map]. apply NoDup_snoc; auto. intro Hin. apply in_map_iff in Hin.
+        destruct Hin as (c & Hc & Hin). specialize (Hoff c Hin). cbn in Hc. lia. }
+  assert (Hs : only_oob (py_summary1 d n posv st1)).
+  { apply (summary1_total st st1 blks n om newd posv); auto.
+    intros M HM. rewrite Hh1. destruct om; auto. replace (Nat.eqb M 0) with false by (symmetry; apply Nat.eqb_neq; lia). reflexivity. }
+  destruct (py_summary1 d n posv st1); [exact I|exact Hs].
+Qed.
+
+Lemma do_all_full_total : forall ops st blks,
+  RunInv st blks -> Forall full_or_skip ops -> only_oob (py_do_all d ops st).
+Proof.
+  induction ops as [|o ops IH]; intros st blks Hinv Hops; [exact I|].
+  inversion Hops as [|? ? Ho Hops']; subst. cbn [py_do_all]. unfold py_bind.
+  destruct o as [n req|k]; cbn [py_do]; cbn [full_or_skip] in Ho.
+  - pose proof Hcons as (_ & Hspd & _).
+    pose proof (wr_data_total st blks n req Hinv ltac:(lia)) as Ht.
+    destruct (py_wr_data d n req st) as [st1|e] eqn:Hdo; [|exact Ht].
+    destruct (blk_step st st1 blks n req Hinv ltac:(lia) Hdo) as (_ & HR & _).
+    exact (IH st1 _ (HR Ho) Hops').
+  - exact (IH _ blks (skip_RunInv st blks k Ho Hinv) Hops').
+Qed.
+
+Lemma close_step_total : forall L f st blks,
+  (1 <= L)%nat -> (L + S f = 16)%nat -> OffsOK st ->
+  LvlClose L st blks -> (forall M, (L < M)%nat -> LvlRun M st blks) ->
+  only_oob (py_wr_summary (S f) d L st).
+Proof.
+  intros L f st blks HL HLf Hoffs (C1 & C2 & C3 & C4 & C5 & C6 & C7 & C8) Hup.
+  pose proof (py_epc_pos d L Hcons) as Hepc.
+  destruct (py_cons_facts d Hcons) as (_ & _ & _ & _ & _ & Hsumdf & Hq & Hepsq & Heps & _).
+  rewrite wr_summary_unfold.
+  destruct ((pl_sum (py_lvl_get st L) =? 0) && (py_nilb (pl_idx (py_lvl_get st L)) || ((1 <? L)%nat && (py_head_get st L =? 0)))) eqn:Hg; [exact I|].
+  assert (Hne : pl_idx (py_lvl_get st L) <> []).
+  { intro E. rewrite (C5 E), E in Hg. cbn in Hg. discriminate. }
+  destruct (py_wr_chunks L st) as (st2, pos) eqn:Hch.
+  destruct f as [|f]; [reflexivity|].
+  destruct C7 as (C7a & C7b); auto.
+  destruct (Hup (S L) ltac:(lia)) as (HS1 & HS2 & (E1 & E2 & E3)).
+  replace (py_epc d (S L)) with (py_q d) in E2 by (destruct L; [lia|reflexivity]).
+  assert (Hcap2 : py_cap d (S L) = py_sumdf d) by (apply py_cap_ge2; lia).
+  assert (Hadd : 0 <= pl_sum (py_lvl_get st L) / py_sumdf d < py_q d).
+  { split; [apply Z.div_pos; lia|]. apply Z.div_lt_upper_bound; lia. }
+  destruct (wr_chunks_spec L st Hne) as (st2' & Ech & Hd2 & Hp2 & Hl2 & _). rewrite Hch in Ech. injection Ech as <- ->.
+  assert (Hg2 : forall M, py_lvl_get st2 M = py_lvl_get st M) by (intro M; unfold py_lvl_get; rewrite Hl2; reflexivity).
+  unfold py_bind.
+  assert (Hfeed : py_feed d (S L) (pw_pos st) st2 =
+            PyOk (py_lvl_set st2 (S L) (appended (py_lvl_get st2 (S L)) (pw_pos st) (pl_sum (py_lvl_get st2 L) / py_sumdf d)
+                                      (pl_its (py_lvl_get st2 L)) (pl_sts (py_lvl_get st2 L))))).
+  { unfold py_feed. cbn [pred]. apply append_ok; rewrite !Hg2; [lia|]. rewrite E2, Hepsq. rewrite Hcap2 in E1. nia. }
+  rewrite Hfeed. set (st3 := py_lvl_set st2 (S L) _) in *.
+  destruct (write_feed_step L st st2 st3 (pw_pos st) blks HL Hoffs C1 C2 Hne C3 C7a C7b (fun E => C8 E Hne) (Hup (S L) ltac:(lia)) Hch Hfeed)
+    as (_ & _ & _ & _ & _ & _ & _ & _ & _ & Hl3 & _).
+  assert (Hsum3 : pl_sum (py_lvl_get st3 (S L)) = Z.of_nat (length (pl_idx (py_lvl_get st (S L)))) * py_q d + pl_sum (py_lvl_get st L) / py_sumdf d).
+  { rewrite Hl3. cbn [appended pl_sum]. rewrite E2. reflexivity. }
+  assert (Hlt : pl_sum (py_lvl_get st3 (S L)) < py_eps d) by (rewrite Hsum3, Hepsq; rewrite Hcap2 in E1; nia).
+  replace (py_eps d <=? pl_sum (py_lvl_get st3 (S L))) with false by (symmetry; apply Z.leb_gt; exact Hlt).
+  exact I.
+Qed.
+
+(* one step of the close loop keeps the loop invariant, or everything above is empty *)
+Lemma climb_step : forall L k st st1 blks,
+  (L + S k = 16)%nat -> (1 <= L)%nat -> Climb L st blks ->
+  py_wr_summary (S k) d L st = PyOk st1 ->
+  Climb (S L) st1 blks \/
+  (forall M, (S L <= M)%nat -> pl_idx (py_lvl_get st1 M) = [] /\ pl_sum (py_lvl_get st1 M) = 0).
+Proof.
+  intros L k st st1 blks HLk HL (Hoffs & Hdata & Hbok & Hlow & Hcl & Hup) Hws.
+  destruct (close_step L k st st1 blks HL ltac:(lia) Hoffs Hcl Hup Hws)
+    as [(A1 & A2 & A3 & A4 & A5 & (new & Hd1 & Hnew & Hlowf & Hdts1 & Hdh1) & A7)|(-> & B2 & B3 & B4 & B5)].
+  - left.
+    assert (Hknew : forall M c, (M <= L)%nat -> In c new -> pc_kind c <> PyIndex (pred M) /\ (M < L -> pc_kind c <> PyIndex M)%nat).
+    { intros M c HM Hc. destruct (Hnew c Hc) as ((Hl & _) & _). split; [|intro]; eapply level_kind_ne; eauto; lia. }
+    assert (Hlow1 : forall M, (1 <= M < L)%nat ->
+              LvlDisk M (pw_disk st1) blks (py_head_get st1 M) [] /\ pl_idx (py_lvl_get st1 M) = [] /\ idxs (pw_disk st1) M <> []).
+    { intros M HM. destruct (Hlow M HM) as (L1 & L2 & L3). destruct (Hlowf M ltac:(lia)) as (-> & ->). rewrite Hd1.
+      split; [|split; auto].
+      - apply LvlDisk_frame; auto. intros c Hc. destruct (Hknew M c ltac:(lia) Hc) as (K1 & K2). split; auto. apply K2; lia.
+      - rewrite idxs_app_none; auto. intros c Hc. destruct (Hknew M c ltac:(lia) Hc) as (K1 & K2). apply K2; lia. }
+    split; [exact A5|]. split.
+    { destruct Hdata as (D1 & D2 & D3 & D4 & D5 & D6).
+      assert (HB : ents (pw_disk st1) 1 ++ pl_idx (py_lvl_get st1 1) = ents (pw_disk st) 1 ++ pl_idx (py_lvl_get st 1)).
+      { destruct (Nat.eq_dec L 1) as [->|HL1].
+        - rewrite A2, app_nil_r. exact A7.
+        - destruct (Hlowf 1%nat ltac:(lia)) as (-> & _). rewrite Hd1, ents_app_none; auto.
+          intros c Hc. destruct (Hnew c Hc) as ((Hl & _) & _). eapply level_kind_ne; eauto. lia. }
+      split; [rewrite Hdts1; exact D1|]. split; [rewrite Hdh1; exact D2|]. split; [exact D3|].
+      split; [rewrite HB; destruct (Hlowf 0%nat ltac:(lia)) as (_ & ->); exact D4|]. split.
+      - intros c Hc Hk. rewrite HB. rewrite Hd1 in Hc. apply in_app_or in Hc. destruct Hc as [Hc|Hc]; [apply D5; auto|].
+        destruct (Hnew c Hc) as (_ & Hnd). congruence.
+      - intros c Hc. rewrite Hd1 in Hc. apply in_app_or in Hc. destruct Hc as [Hc|Hc]; [apply D6; auto|].
+        destruct (Hnew c Hc) as ((Hl0 & Hl) & _). split; [exact Hl|right; lia]. }
+    split; [exact Hbok|]. split; [|split; [exact A3|exact A4]].
+    intros M HM. destruct (Nat.eq_dec M L) as [->|HML]; [|apply Hlow1; lia].
+    split; [exact A1|]. split; [exact A2|].
+    eapply src_nonempty_idxs; eauto.
+    + intros ->. destruct Hbok; auto.
+    + intros HL2. destruct (Hlow1 (pred L) ltac:(lia)) as (_ & _ & Hne). exact Hne.
+  - right. intros M HM. replace M with (L + S (M - L - 1))%nat by lia.
+    destruct (empty_above st blks L (M - L - 1) Hup HL B3) as (_ & _ & E1 & E2). auto.
+Qed.
+
+Lemma close_loop_total : forall k L st blks,
+  (L + k = 16)%nat -> (1 <= L)%nat -> Climb L st blks -> only_oob (py_close_loop k d L st).
+Proof.
+  induction k as [|k IH]; intros L st blks HLk HL Hc; [exact I|].
+  cbn [py_close_loop]. replace (16 - L)%nat with (S k) by lia. unfold py_bind.
+  pose proof Hc as (Hoffs & _ & _ & _ & Hcl & Hup).
+  pose proof (close_step_total L k st blks HL ltac:(lia) Hoffs Hcl Hup) as Ht.
+  destruct (py_wr_summary (S k) d L st) as [st1|e] eqn:Hws; [|exact Ht].
+  destruct (climb_step L k st st1 blks ltac:(lia) HL Hc Hws) as [Hc1|Hemp].
+  - apply (IH (S L) st1 blks); auto; lia.
+  - rewrite (done_loop k (S L) st1); [exact I|lia|exact Hemp].
+Qed.
+
+Lemma skips_ok : forall ops st, Forall is_skip ops -> exists st', py_do_all d ops st = PyOk st'.
+Proof.
+  induction ops as [|o ops IH]; intros st Hops; [exists st; reflexivity|].
+  inversion Hops as [|? ? Ho Hops']; subst. destruct o as [n req|k]; cbn in Ho; [contradiction|].
+  cbn [py_do_all py_do py_bind]. apply IH; auto.
+Qed.
+
+(* for every consistent definition and every program, the writer either succeeds or runs out of its 16 levels:
+   the index and summary buffers of a level never overflow *)
+Lemma run_total : forall pre n req post pos0,
+  0 < pos0 -> Forall full_or_skip pre -> Forall is_skip post -> 1 <= n <= py_spd d ->
+  only_oob (py_run d t0 pos0 (pre ++ PyBlk n req :: post)).
+Proof.
+  intros pre n req post pos0 Hp Hpre Hpost Hn. unfold py_run.
+  assert (Hdiv : py_div_ok d = true).
+  { destruct (py_cons_facts d Hcons) as (H1 & H2 & _ & _ & _ & H3 & _ & _ & _ & H4 & _). unfold py_div_ok.
+    repeat (apply andb_true_iff; split); apply negb_true_iff; apply Z.eqb_neq; lia. }
+  rewrite Hdiv. unfold py_bind.
+  assert (Hsplit : forall a b s, py_do_all d (a ++ b) s = py_bind (py_do_all d a s) (py_do_all d b)).
+  { induction a as [|x a IHa]; intros b s; cbn; auto. destruct (py_do d x s); cbn; auto. }
+  pose proof (do_all_full_total pre _ [] (RunInv_init pos0 Hp) Hpre) as T1.
+  destruct (py_do_all d (pre ++ PyBlk n req :: post) (py_init t0 pos0)) as [stc|e] eqn:Hall.
+  - pose proof (run_ops_CloseReady pre n req post pos0 stc Hp Hpre Hpost Hn Hall) as (Ho & Hd & Hb & Hc1 & Hl).
+    unfold py_close. apply (close_loop_total 15 1 stc (py_blocks (pre ++ PyBlk n req :: post))); auto.
+    split; [exact Ho|]. split; [exact Hd|]. split; [exact Hb|]. split; [intros M HM; lia|]. split; [exact Hc1|].
+    intros M HM. apply Hl. lia.
+  - rewrite Hsplit in Hall. unfold py_bind in Hall.
+    destruct (py_do_all d pre (py_init t0 pos0)) as [st1|e1] eqn:H1; [|injection Hall as <-; exact T1].
+    pose proof (run_full_ops pre _ st1 [] (RunInv_init pos0 Hp) Hpre H1) as HR1. cbn [app py_nilb negb] in HR1.
+    cbn [py_do_all py_do] in Hall. unfold py_bind in Hall.
+    pose proof (wr_data_total st1 _ n req HR1 Hn) as T2.
+    destruct (py_wr_data d n req st1) as [st2|e2] eqn:H2; [|injection Hall as <-; exact T2].
+    destruct (skips_ok post st2 Hpost) as (st' & Hs). rewrite Hs in Hall. discriminate.
 Qed.
 
 (* ------------------------------------------------------------------ 5. the reader on a closed pyramid *)
@@ -1713,3 +2028,569 @@ Qed.
 
 End Reader.
 End Pyr.
+
+(* ------------------------------------------------------------------ 5b. reader: blocks, length, cache *)
+Lemma idx_nat_eq : forall (a : nat) (cp cnt : Z), 0 < cp -> 1 <= cnt ->
+  (a * Z.to_nat cp + Z.to_nat cnt - 1)%nat = Z.to_nat (Z.of_nat a * cp + (cnt - 1)).
+Proof.
+  intros a cp cnt Hcp Hcnt. apply Nat2Z.inj.
+  assert (0 <= Z.of_nat a * cp) by (apply Z.mul_nonneg_nonneg; lia).
+  rewrite Z2Nat.id by lia. rewrite Nat2Z.inj_sub by lia. rewrite Nat2Z.inj_add, Nat2Z.inj_mul, !Z2Nat.id by lia. ring.
+Qed.
+Lemma idx_nat_lt : forall (a : nat) (cp cnt idx : Z) (len : nat), 0 < cp -> 1 <= cnt -> 0 <= idx -> idx < cnt - 1 ->
+  (a * Z.to_nat cp + Z.to_nat cnt - 1 < len)%nat -> (S (Z.to_nat (Z.of_nat a * cp + idx)) < len)%nat.
+Proof.
+  intros a cp cnt idx len Hcp Hcnt Hi Hlt H. rewrite idx_nat_eq in H by auto.
+  assert (0 <= Z.of_nat a * cp) by (apply Z.mul_nonneg_nonneg; lia).
+  apply Nat2Z.inj_lt. apply Nat2Z.inj_lt in H. rewrite Nat2Z.inj_succ. rewrite Z2Nat.id in * by lia. lia.
+Qed.
+
+Section Reader2.
+Variable d : py_def.
+Variable t0 : Z.
+Hypothesis Hcons : py_consistent d.
+Variable st : py_wr.
+Variable blks : list (Z * bool).
+Variable T : nat.
+Hypothesis Hfin : FinInv d t0 st blks T.
+Let disk := pw_disk st.
+Let heads := pw_heads st.
+
+(* the block that holds relative position x, as the file stores it *)
+Definition block_at (x : Z) : py_block :=
+  let i := Z.to_nat (x / py_spd d) in
+  match nth_error blks i with
+  | Some (n, om) =>
+    if (om : bool) then PyOmitted (t0 + Z.of_nat i * py_spd d) (py_sdf d * (n / py_sdf d))
+    else match py_find disk (nth i (ents disk 1) 0) with
+         | Some (c, _) => PyStored c
+         | None => PyOmitted 0 0
+         end
+  | None => PyOmitted 0 0
+  end.
+
+Lemma rd_data0_ok : forall sig cache x, 0 <= sig < 256 -> cache_ok st sig cache -> 0 <= x < py_total blks ->
+  fst (py_rd_data0 d disk heads sig cache (t0 + x)) = PyOk (block_at x) /\
+  cache_ok st sig (snd (py_rd_data0 d disk heads sig cache (t0 + x))).
+Proof.
+  intros sig cache x Hsig Hok Hx. unfold py_rd_data0.
+  destruct (level1_ok d t0 Hcons st blks T Hfin sig cache x Hsig Hok Hx) as (c1 & i1 & s1 & Hc1 & Hi1 & Hs1 & Hrc & Hci & Hcs & Hok').
+  fold disk in Hc1, Hi1, Hs1, Hrc, Hci, Hcs, Hok'. fold heads in Hrc, Hci, Hcs, Hok'.
+  destruct (py_rd_level1 d disk heads sig cache (t0 + x)) as (cache', rc). cbn [fst snd] in *. subst rc.
+  rewrite Hci.
+  assert (Hjx : Z.of_nat (Z.to_nat (x / py_span d 1)) = x / py_span d 1).
+  { apply Z2Nat.id. apply Z.div_pos; [lia|]. apply py_span_pos; auto. }
+  pose proof Hfin as (_ & _ & _ & HT & _).
+  destruct (descend d t0 Hcons st blks T Hfin 1 _ c1 x ltac:(lia) Hx Hc1 Hjx) as (Hidx & Hb & o & Ho & He). rewrite py_step_1 in *.
+  fold disk in He.
+  set (idx := Z.quot (t0 + x - pc_ts c1) (py_spd d)) in *.
+  replace (idx <? 0) with false by (symmetry; apply Z.ltb_ge; lia). rewrite Ho.
+  destruct (block_of d t0 Hcons st blks T Hfin x Hx) as (n & om & Hn & Hpos & Hnb & Hfull).
+  destruct (fin_src1 d t0 st blks T Hfin) as (Hl & Hsrc). fold disk in Hl, Hsrc. specialize (Hsrc _ o n om He Hn).
+  unfold block_at. rewrite Hn. rewrite (nth_error_nth' _ _ _ _ 0 He).
+  assert (Hi0 : 0 <= x / py_spd d) by (apply Z.div_pos; destruct Hcons as (_ & ? & _); lia).
+  destruct (py_cons_facts d Hcons) as (Hsdf & Hepd & Hspd & Hcap & Heps & _).
+  destruct om.
+  - (* omitted: reconstructed from the summary *)
+    subst o. rewrite Z.eqb_refl. split; [|exact Hok']. unfold fst. f_equal. unfold py_reconstruct. rewrite Hci, Hcs. fold idx.
+    destruct (fin_l1 d t0 st blks T Hfin _ c1 Hc1) as (C1 & C2 & C3 & i & s & Hi & Hs & K1 & K2 & nl & oml & Hnl & Kc).
+    fold disk in Hi, Hs.
+    assert (i = i1) by (eapply nth_unique; eauto; apply (fin_nodup d t0 st blks T Hfin)). subst i. rewrite Hs1 in Hs. injection Hs as <-.
+    rewrite K2. replace (idx * py_spd d + pc_ts c1 - pc_ts c1) with (idx * py_epd d * py_sdf d) by (rewrite Hspd; ring).
+    rewrite Z.quot_div_nonneg; [|apply Z.mul_nonneg_nonneg; [apply Z.mul_nonneg_nonneg|]; lia|lia]. rewrite Z.div_mul by lia.
+    f_equal.
+    + rewrite C1, Hidx, Hjx. rewrite py_span_eq by lia. rewrite py_step_1. rewrite (Z2Nat.id (x / py_spd d)) by lia. ring.
+    + f_equal. rewrite Kc. change (py_spd d / py_sdf d) with (py_epd d).
+      destruct (div_sdf_bound d Hcons nl) as (Hd1 & _).
+      { destruct Hfin as (_ & _ & (_ & Hb0) & _). destruct (Hb0 _ _ _ Hnl) as (Hq & _). exact Hq. }
+      assert (Hgi : x / py_spd d = Z.of_nat (Z.to_nat (x / py_span d 1)) * py_cap d 1 + idx) by (rewrite Hidx; ring).
+      destruct (Z.eq_dec idx (pc_count c1 - 1)) as [Eidx|Nidx].
+      * (* last block of the chunk *)
+        assert (En : nl = n).
+        { assert (Ei : (Z.to_nat (x / py_span d 1) * Z.to_nat (py_cap d 1) + Z.to_nat (pc_count c1) - 1)%nat = Z.to_nat (x / py_spd d)).
+          { rewrite Hgi, Eidx. apply idx_nat_eq; lia. }
+          rewrite Ei, Hn in Hnl. injection Hnl as -> _. reflexivity. }
+        subst nl. replace (py_epd d * (pc_count c1 - 1) + n / py_sdf d - idx * py_epd d) with (n / py_sdf d) by (rewrite Eidx; ring).
+        rewrite Z.max_r by lia. rewrite Z.min_r by lia. reflexivity.
+      * assert (En : n = py_spd d).
+        { apply Hfull. apply nth_error_lt in Hnl. rewrite Hgi. eapply idx_nat_lt; eauto; lia. }
+        subst n. destruct (div_sdf_bound d Hcons (py_spd d) ltac:(lia)) as (_ & _ & ->); auto.
+        assert (Hge : py_epd d <= py_epd d * (pc_count c1 - 1) + nl / py_sdf d - idx * py_epd d).
+        { replace (py_epd d * (pc_count c1 - 1) + nl / py_sdf d - idx * py_epd d) with (py_epd d * (pc_count c1 - 1 - idx) + nl / py_sdf d) by ring.
+          assert (py_epd d * 1 <= py_epd d * (pc_count c1 - 1 - idx)) by (apply Z.mul_le_mono_nonneg_l; lia). lia. }
+        rewrite Z.max_r by lia. rewrite Z.min_l by lia. reflexivity.
+  - (* stored *)
+    destruct Hsrc as (cd & Hin & Hoff & Hk & Hts & Hcnt).
+    pose proof Hfin as ((_ & Hoffs & _) & _). specialize (Hoffs cd Hin).
+    replace (o =? 0) with false by (symmetry; apply Z.eqb_neq; clear - Hoffs Hoff; lia).
+    rewrite <- Hoff. destruct (find_In disk cd (fin_nodup d t0 st blks T Hfin) Hin) as (nx & ->).
+    replace (t0 + x <? pc_ts cd) with false by (symmetry; apply Z.ltb_ge; rewrite Hts, Z2Nat.id by (clear - Hi0; lia); clear - Hpos; lia).
+    split; [reflexivity|exact Hok'].
+Qed.
+
+Lemma len_loop_unfold : forall dd dk sido lvl' offset len,
+  py_len_loop dd dk sido (S lvl') offset len =
+    match py_find dk offset with
+    | None => PyErr PE_Seek
+    | Some (c, nxt) =>
+      if Z.of_nat (length (pc_entries c)) <? pc_count c then PyErr PE_Param else
+      let offset' := if 0 <? pc_count c then nth (Z.to_nat (pc_count c - 1)) (pc_entries c) 0 else offset in
+      if (S lvl' =? 1)%nat then
+        match nxt with
+        | None => PyErr PE_Seek
+        | Some s => py_len_loop dd dk sido lvl' offset' (pc_ts s + (pc_count s * py_sdf dd) mod 2 ^ 32 - sido)
+        end
+      else py_len_loop dd dk sido lvl' offset' len
+    end.
+Proof. reflexivity. Qed.
+
+(* the last entry of the last chunk of a level points to the last child *)
+Lemma last_entry : forall M c, (1 <= M <= T)%nat ->
+  nth_error (idxs disk M) (length (idxs disk M) - 1) = Some c ->
+  nth (Z.to_nat (pc_count c - 1)) (pc_entries c) 0 = nth (length (ents disk M) - 1) (ents disk M) 0 /\
+  (1 <= length (ents disk M))%nat.
+Proof.
+  intros M c HM Hc.
+  pose proof (fin_m_pos d t0 st blks T Hfin M HM) as Hm. fold disk in Hm.
+  destruct (fin_count d t0 Hcons st blks T Hfin M _ c HM Hc) as (_ & Hlast). fold disk in Hlast. specialize (Hlast ltac:(lia)).
+  destruct (fin_lvl d t0 st blks T Hfin M HM) as (Hck & _). fold disk in Hck. destruct (Hck _ c Hc) as (_ & C2 & C3 & _).
+  assert (Hk : (Z.to_nat (pc_count c - 1) < length (pc_entries c))%nat) by lia.
+  pose proof (fin_ptr d t0 st blks T Hfin M _ c _ HM Hc Hk) as E. fold disk in E.
+  destruct (nth_error_ex _ _ _ Hk) as (o & Ho). rewrite Ho in E.
+  rewrite (nth_error_nth' _ _ _ _ 0 Ho).
+  set (p := ((length (idxs disk M) - 1) * Z.to_nat (py_cap d M))%nat) in *.
+  replace (length (ents disk M) - 1)%nat with (p + Z.to_nat (pc_count c - 1))%nat by lia.
+  rewrite (nth_error_nth' _ _ _ _ 0 E). split; [reflexivity|lia].
+Qed.
+
+Lemma len_down : forall M, (1 <= M <= T)%nat -> forall c sido len0,
+  nth_error (idxs disk M) (length (idxs disk M) - 1) = Some c ->
+  exists c1 i1 s1, nth_error (idxs disk 1) (length (idxs disk 1) - 1) = Some c1 /\
+    nth_error disk i1 = Some c1 /\ nth_error disk (S i1) = Some s1 /\
+    py_len_loop d disk sido M (pc_off c) len0 =
+      PyOk (nth (length (ents disk 1) - 1) (ents disk 1) 0, pc_ts s1 + (pc_count s1 * py_sdf d) mod 2 ^ 32 - sido).
+Proof.
+  induction M as [|M IH]; intros HM c sido len0 Hc; [lia|].
+  rewrite len_loop_unfold.
+  assert (Hin : In c disk) by (apply (idxs_In disk (S M) c); eapply nth_error_In; eauto).
+  destruct (fin_lvl d t0 st blks T Hfin (S M) HM) as (Hck & _). fold disk in Hck. destruct (Hck _ c Hc) as (_ & C2 & C3 & _ & i & s & Hi & Hs & _).
+  rewrite (find_nth disk i c (fin_nodup d t0 st blks T Hfin) Hi), Hs.
+  replace (Z.of_nat (length (pc_entries c)) <? pc_count c) with false by (symmetry; apply Z.ltb_ge; lia).
+  replace (0 <? pc_count c) with true by (symmetry; apply Z.ltb_lt; lia). cbv zeta.
+  destruct (last_entry (S M) c HM Hc) as (-> & Hne).
+  destruct (Nat.eq_dec M 0) as [->|HM0].
+  - cbn [Nat.eqb py_len_loop]. exists c, i, s. auto.
+  - replace (S M =? 1)%nat with false by (symmetry; apply Nat.eqb_neq; lia).
+    pose proof (fin_srcN d t0 st blks T Hfin (S M) ltac:(lia)) as Hsr. fold disk in Hsr. cbn [pred] in Hsr. rewrite Hsr in *. rewrite map_length in *.
+    destruct (nth_error_ex _ (idxs disk M) (length (idxs disk M) - 1)) as (c' & Hc'); [lia|].
+    rewrite (nth_error_nth' _ _ _ _ 0 (map_nth_error pc_off _ _ Hc')).
+    apply (IH ltac:(lia) c' sido len0 Hc').
+Qed.
+
+Lemma sample_id_offset_ok : py_sample_id_offset disk heads = t0.
+Proof.
+  pose proof Hfin as ((_ & Hoffs & _) & (D3 & D4 & _) & (Hne & _) & _). fold disk in Hoffs, D4.
+  destruct (fin_src1 d t0 st blks T Hfin) as (Hl & Hsrc). fold disk in Hl, Hsrc.
+  destruct blks as [|(n0, om0) r] eqn:Eb; [congruence|].
+  specialize (D3 n0 om0 eq_refl). subst om0.
+  destruct (nth_error_ex _ (ents disk 1) 0%nat) as (o & Ho); [rewrite Hl; cbn; lia|].
+  destruct (Hsrc 0%nat o n0 false Ho eq_refl) as (cd & Hin & Hoff & Hk & Hts & _).
+  unfold py_sample_id_offset. change (nth 0 heads 0) with (py_head_get st 0). rewrite D4, (nth_error_nth' _ _ _ _ 0 Ho), <- Hoff.
+  specialize (Hoffs cd Hin). replace (pc_off cd =? 0) with false by (symmetry; apply Z.eqb_neq; lia).
+  destruct (find_In disk cd (fin_nodup d t0 st _ T Hfin) Hin) as (nx & ->). rewrite Hk, Hts. lia.
+Qed.
+
+(* the length the reader reports: exact, except that a last block omitted on request loses the
+   samples beyond its last whole summary entry *)
+Lemma fsr_length_ok :
+  py_fsr_length d disk heads =
+    PyOk (py_total blks - (if snd (last blks (0, false)) then fst (last blks (0, false)) mod py_sdf d else 0)).
+Proof.
+  unfold py_fsr_length. rewrite sample_id_offset_ok.
+  destruct (fin_top d t0 st blks T Hfin) as (ctop & Etop & _ & Hlt & _). fold disk in Etop, Hlt. fold heads in Hlt. rewrite Hlt.
+  pose proof Hfin as ((_ & Hoffs & _) & _ & _ & HT & _). fold disk in Hoffs.
+  destruct (len_down T ltac:(lia) ctop t0 (-1)) as (c1 & i1 & s1 & Hc1 & Hi1 & Hs1 & ->); [rewrite Etop; reflexivity|].
+  unfold py_bind.
+  destruct (blks_split d t0 st blks T Hfin) as (l & n & om & Eb & Hl & Hn).
+  destruct (fin_src1 d t0 st blks T Hfin) as (Hlen & Hsrc). fold disk in Hlen, Hsrc.
+  assert (Hlast : last blks (0, false) = (n, om)) by (rewrite Eb; apply last_last).
+  rewrite Hlast. cbn [fst snd].
+  assert (Hnb : length blks = S (length l)) by (rewrite Eb, app_length; cbn; lia).
+  assert (Htot : py_total blks = Z.of_nat (length l) * py_spd d + n).
+  { rewrite Eb, total_app, (total_full d) by auto. unfold py_total. cbn. lia. }
+  assert (Hbn : nth_error blks (length l) = Some (n, om)) by (rewrite Eb; apply nth_error_snoc_last).
+  destruct (nth_error_ex _ (ents disk 1) (length l)) as (o & Ho); [lia|].
+  rewrite Hlen, Hnb. replace (S (length l) - 1)%nat with (length l) by lia.
+  rewrite (nth_error_nth' _ _ _ _ 0 Ho). specialize (Hsrc _ o n om Ho Hbn).
+  destruct (py_cons_facts d Hcons) as (Hsdf & Hepd & Hspd & Hcap & Heps & _ & _ & _ & _ & _ & Hb32).
+  destruct om.
+  - subst o. rewrite Z.eqb_refl. f_equal.
+    destruct (fin_l1 d t0 st blks T Hfin _ c1 Hc1) as (C1 & C2 & C3 & i & s & Hi & Hs & K1 & K2 & nl & oml & Hnl & Kc).
+    fold disk in Hi, Hs.
+    assert (i = i1) by (eapply nth_unique; eauto; apply (fin_nodup d t0 st blks T Hfin)). subst i. rewrite Hs1 in Hs. injection Hs as <-.
+    pose proof (fin_m_pos d t0 st blks T Hfin 1 ltac:(lia)) as Hm. fold disk in Hm.
+    destruct (fin_count d t0 Hcons st blks T Hfin 1 _ c1 ltac:(lia) Hc1) as (_ & Hcl). fold disk in Hcl. specialize (Hcl ltac:(lia)).
+    assert (Ei : ((length (idxs disk 1) - 1) * Z.to_nat (py_cap d 1) + Z.to_nat (pc_count c1) - 1)%nat = length l).
+    { set (p := ((length (idxs disk 1) - 1) * Z.to_nat (py_cap d 1))%nat) in *. lia. }
+    rewrite Ei, Hbn in Hnl. injection Hnl as <- _.
+    destruct (div_sdf_bound d Hcons n Hn) as (Hd1 & _).
+    assert (Hcs : 0 <= pc_count s1 <= py_eps d).
+    { rewrite Kc, Heps. split; [apply Z.add_nonneg_nonneg; [apply Z.mul_nonneg_nonneg|]; lia|].
+      assert (py_epd d * (pc_count c1 - 1) <= py_epd d * (py_cap d 1 - 1)) by (apply Z.mul_le_mono_nonneg_l; lia). lia. }
+    rewrite Z.mod_small.
+    2:{ split; [apply Z.mul_nonneg_nonneg; lia|].
+        assert (pc_count s1 * py_sdf d <= py_eps d * py_sdf d) by (apply Z.mul_le_mono_nonneg_r; lia). lia. }
+    rewrite K2, C1, Kc, Htot, py_span_eq, py_step_1 by lia.
+    assert (Ecnt : Z.of_nat (length (idxs disk 1) - 1) * py_cap d 1 + pc_count c1 = Z.of_nat (length l) + 1).
+    { apply (f_equal Z.of_nat) in Ei. rewrite Nat2Z.inj_sub, Nat2Z.inj_add, Nat2Z.inj_mul, !Z2Nat.id in Ei by lia. lia. }
+    pose proof (Z.div_mod n (py_sdf d) ltac:(lia)) as Edm.
+    replace (Z.of_nat (length l)) with (Z.of_nat (length (idxs disk 1) - 1) * py_cap d 1 + pc_count c1 - 1) by lia.
+    rewrite Hspd. set (q := n / py_sdf d) in *. set (r := n mod py_sdf d) in *. rewrite Edm. ring.
+  - destruct Hsrc as (cd & Hin & Hoff & Hk & Hts & Hcnt). specialize (Hoffs cd Hin).
+    replace (o =? 0) with false by (symmetry; apply Z.eqb_neq; clear - Hoffs Hoff; lia).
+    rewrite <- Hoff. destruct (find_In disk cd (fin_nodup d t0 st blks T Hfin) Hin) as (nx & ->).
+    f_equal. rewrite Hts, Hcnt, Htot. ring.
+Qed.
+
+(* whatever sample id is asked for, a successful seek to level 1 lands on a level-1 index chunk *)
+Lemma seek_loop_lands : forall M, (1 <= M <= T)%nat -> forall j c sid off,
+  nth_error (idxs disk M) j = Some c -> py_seek_loop d disk M 1 (pc_off c) sid = PyOk off ->
+  exists j1 c1, nth_error (idxs disk 1) j1 = Some c1 /\ pc_off c1 = off.
+Proof.
+  induction M as [|M IH]; intros HM j c sid off Hj Hrun; [lia|].
+  destruct (Nat.eq_dec M 0) as [->|HM0].
+  - cbn in Hrun. injection Hrun as <-. exists j, c. auto.
+  - rewrite seek_loop_unfold in Hrun. replace (S M <=? 1)%nat with false in Hrun by (symmetry; apply Nat.leb_gt; lia).
+    assert (Hin : In c disk) by (apply (idxs_In disk (S M) c); eapply nth_error_In; eauto).
+    destruct (find_In disk c (fin_nodup d t0 st blks T Hfin) Hin) as (nx & Hf). rewrite Hf in Hrun.
+    destruct (py_step d (S M) =? 0); [discriminate|].
+    set (idx := Z.quot (sid - pc_ts c) (py_step d (S M))) in *.
+    destruct ((idx <? 0) || (pc_count c <=? idx)) eqn:Hb; [discriminate|].
+    apply orb_false_iff in Hb. destruct Hb as (Hb1 & Hb2). apply Z.ltb_ge in Hb1. apply Z.leb_gt in Hb2.
+    destruct (nth_error (pc_entries c) (Z.to_nat idx)) as [o|] eqn:Ho; [|discriminate].
+    pose proof (fin_ptr d t0 st blks T Hfin (S M) j c _ HM Hj (nth_error_lt _ _ _ _ Ho)) as E. fold disk in E.
+    rewrite Ho in E. pose proof (fin_srcN d t0 st blks T Hfin (S M) ltac:(lia)) as Hsr. fold disk in Hsr. cbn [pred] in Hsr.
+    rewrite Hsr, nth_error_map in E.
+    destruct (nth_error (idxs disk M) (j * Z.to_nat (py_cap d (S M)) + Z.to_nat idx)) as [c'|] eqn:Ec'; [|discriminate].
+    cbn in E. injection E as <-. eapply (IH ltac:(lia) _ c' sid off Ec' Hrun).
+Qed.
+
+Lemma fsr_seek_lands : forall sid off, py_fsr_seek d disk heads 1 sid = PyOk off ->
+  exists j1 c1, nth_error (idxs disk 1) j1 = Some c1 /\ pc_off c1 = off.
+Proof.
+  intros sid off Hrun. unfold py_fsr_seek in Hrun.
+  destruct (fin_top d t0 st blks T Hfin) as (ctop & Etop & Htop & _ & _). fold disk in Etop. fold heads in Htop.
+  destruct (negb (py_div_ok d)); [discriminate|]. rewrite Htop in Hrun.
+  pose proof Hfin as (_ & _ & _ & HT & _).
+  eapply (seek_loop_lands T ltac:(lia) 0%nat ctop sid off); [rewrite Etop; reflexivity|exact Hrun].
+Qed.
+
+(* any read (inside or outside the signal, failing or not) leaves a cache that is consistent with the file *)
+Lemma rd_data0_cache_ok_any : forall sig cache s, cache_ok st sig cache ->
+  cache_ok st sig (snd (py_rd_data0 d disk heads sig cache s)).
+Proof.
+  intros sig cache s Hok.
+  assert (H1 : cache_ok st sig (fst (py_rd_level1 d disk heads sig cache s))).
+  { unfold py_rd_level1. destruct (py_cache_hit d sig cache s); [exact Hok|].
+    destruct (py_fsr_seek d disk heads 1 s) as [off|e] eqn:Hs; [|intros _ H; cbn in H; congruence].
+    destruct (fsr_seek_lands s off Hs) as (j1 & c1 & Hc1 & <-).
+    destruct (fin_l1 d t0 st blks T Hfin j1 c1 Hc1) as (_ & _ & _ & i & sm & Hi & Hsm & _). fold disk in Hi, Hsm.
+    rewrite (find_nth disk i c1 (fin_nodup d t0 st blks T Hfin) Hi), Hsm. cbn [fst].
+    intros _ _. cbn [cc_index cc_summary]. exists j1, i. auto. }
+  unfold py_rd_data0. destruct (py_rd_level1 d disk heads sig cache s) as (cache', rc). cbn [fst] in H1.
+  destruct rc; [exact H1|].
+  destruct (Z.quot (s - pc_ts (cc_index cache')) (py_spd d) <? 0); [exact H1|].
+  destruct (nth_error (pc_entries (cc_index cache')) (Z.to_nat (Z.quot (s - pc_ts (cc_index cache')) (py_spd d)))) as [o|]; [|exact H1].
+  destruct (o =? 0); [exact H1|]. destruct (py_find disk o) as [(c, nx)|]; [|exact H1].
+  destruct (s <? pc_ts c); exact H1.
+Qed.
+
+Lemma reads_cache_ok : forall sig starts cache, cache_ok st sig cache -> cache_ok st sig (py_reads d disk heads sig cache starts).
+Proof.
+  intros sig starts. induction starts as [|s r IH]; intros cache Hok; [exact Hok|].
+  cbn [py_reads]. apply IH. apply rd_data0_cache_ok_any. exact Hok.
+Qed.
+
+(* what an index entry points to *)
+Lemma fin_entry_target : forall L j c k o, (1 <= L <= T)%nat ->
+  nth_error (idxs disk L) j = Some c -> nth_error (pc_entries c) k = Some o ->
+  match L with
+  | 1%nat => exists m om, nth_error blks (j * Z.to_nat (py_cap d 1) + k) = Some (m, om) /\
+       if (om : bool) then o = 0 else
+       exists t, In t disk /\ pc_off t = o /\ pc_kind t = PyData /\ pc_ts t = pc_ts c + Z.of_nat k * py_step d 1 /\ pc_count t = m
+  | _ => exists t, nth_error (idxs disk (pred L)) (j * Z.to_nat (py_cap d L) + k) = Some t /\ pc_off t = o /\
+                   pc_ts t = pc_ts c + Z.of_nat k * py_step d L
+  end.
+Proof.
+  intros L j c k o HL Hj Ho.
+  pose proof (fin_ptr d t0 st blks T Hfin L j c k HL Hj (nth_error_lt _ _ _ _ Ho)) as E. fold disk in E. rewrite Ho in E.
+  destruct (fin_lvl d t0 st blks T Hfin L HL) as (Hck & _). fold disk in Hck. destruct (Hck j c Hj) as (C1 & _).
+  pose proof (py_cap_pos d L Hcons) as Hcp.
+  destruct L as [|[|L]]; [lia| |].
+  - destruct (fin_src1 d t0 st blks T Hfin) as (Hl & Hsrc). fold disk in Hl, Hsrc.
+    destruct (nth_error_ex _ blks (j * Z.to_nat (py_cap d 1) + k)) as ((m & om) & Hm); [rewrite <- Hl; eapply nth_error_lt; eauto|].
+    exists m, om. split; [exact Hm|]. specialize (Hsrc _ o m om E Hm). destruct om; [exact Hsrc|].
+    destruct Hsrc as (t & Hin & Hoff & Hk & Hts & Hc). exists t. repeat split; auto.
+    rewrite Hts, C1, py_span_eq, py_step_1 by lia. rewrite Nat2Z.inj_add, Nat2Z.inj_mul, Z2Nat.id by lia. ring.
+  - pose proof (fin_srcN d t0 st blks T Hfin (S (S L)) ltac:(lia)) as Hsr. fold disk in Hsr. cbn [pred] in *.
+    rewrite Hsr, nth_error_map in E.
+    destruct (nth_error (idxs disk (S L)) (j * Z.to_nat (py_cap d (S (S L))) + k)) as [t|] eqn:Et; [|discriminate].
+    cbn in E. injection E as <-. exists t. split; [reflexivity|]. split; [reflexivity|].
+    destruct (fin_lvl d t0 st blks T Hfin (S L) ltac:(lia)) as (Hck' & _). fold disk in Hck'. destruct (Hck' _ t Et) as (C1' & _).
+    rewrite C1', C1. rewrite (py_span_eq d (S (S L))) by lia. unfold py_span.
+    rewrite Nat2Z.inj_add, Nat2Z.inj_mul, Z2Nat.id by lia. ring.
+Qed.
+End Reader2.
+
+(* ------------------------------------------------------------------ 6. the property theorems *)
+Definition py_ops_full (d : py_def) (ops : list py_op) : Prop :=
+  Forall (fun o => match o with PyBlk m _ => m = py_spd d | PySkip k => 0 <= k end) ops.
+Definition py_ops_skip (ops : list py_op) : Prop :=
+  Forall (fun o => match o with PyBlk _ _ => False | PySkip k => 0 <= k end) ops.
+
+Lemma run_Fin : forall d t0 pos0 pre n req post st,
+  py_consistent d -> 0 < pos0 -> py_ops_full d pre -> py_ops_skip post -> 1 <= n <= py_spd d ->
+  py_run d t0 pos0 (pre ++ PyBlk n req :: post) = PyOk st ->
+  exists T, FinInv d t0 st (py_blocks (pre ++ PyBlk n req :: post)) T.
+Proof. intros. eapply run_FinInv; eauto. Qed.
+
+Theorem pyr_pyramid_inv : forall d t0 pos0 pre n req post st,
+  py_consistent d -> 0 < pos0 -> py_ops_full d pre -> py_ops_skip post -> 1 <= n <= py_spd d ->
+  py_run d t0 pos0 (pre ++ PyBlk n req :: post) = PyOk st ->
+  let disk := pw_disk st in
+  let blks := py_blocks (pre ++ PyBlk n req :: post) in
+  let idx := fun L => filter (fun c => py_kind_eqb (pc_kind c) (PyIndex L)) disk in
+  (forall L j c, nth_error (idx L) j = Some c ->
+     (1 <= L)%nat /\
+     pc_ts c = t0 + Z.of_nat j * (py_cap d L * py_step d L) /\
+     pc_count c = Z.of_nat (length (pc_entries c)) /\ 1 <= pc_count c <= py_cap d L /\
+     ((S j < length (idx L))%nat -> pc_count c = py_cap d L) /\
+     forall k o, nth_error (pc_entries c) k = Some o ->
+       match L with
+       | 1%nat => exists m om, nth_error blks (j * Z.to_nat (py_cap d 1) + k) = Some (m, om) /\
+           if (om : bool) then o = 0 else
+           exists t, In t disk /\ pc_off t = o /\ pc_kind t = PyData /\
+                     pc_ts t = pc_ts c + Z.of_nat k * py_step d 1 /\ pc_count t = m
+       | _ => exists t, nth_error (idx (pred L)) (j * Z.to_nat (py_cap d L) + k) = Some t /\ pc_off t = o /\
+                        pc_ts t = pc_ts c + Z.of_nat k * py_step d L
+       end) /\
+  (forall i c L, nth_error disk i = Some c -> pc_kind c = PyIndex L ->
+     exists s, nth_error disk (S i) = Some s /\ pc_kind s = PySummary L /\ pc_ts s = pc_ts c) /\
+  (exists T top, (1 <= T <= 14)%nat /\ idx T = [top] /\ nth T (pw_heads st) 0 = pc_off top /\ pc_ts top = t0 /\
+     (forall L, (T < L)%nat -> idx L = [] /\ nth L (pw_heads st) 0 = 0) /\
+     (forall L, (1 <= L <= T)%nat -> exists f, nth_error (idx L) 0 = Some f /\ nth L (pw_heads st) 0 = pc_off f) /\
+     (forall c, In c disk -> pc_kind c = PyData -> exists p, In p (idx 1%nat) /\ In (pc_off c) (pc_entries p)) /\
+     (forall L c, (1 <= L < T)%nat -> In c (idx L) -> exists p, In p (idx (S L)) /\ In (pc_off c) (pc_entries p))).
+Proof.
+  intros d t0 pos0 pre n req post st Hcons Hp Hpre Hpost Hn Hrun disk blks idx.
+  destruct (run_Fin d t0 pos0 pre n req post st Hcons Hp Hpre Hpost Hn Hrun) as (T & Hfin). fold blks in Hfin.
+  pose proof Hfin as (Hoffs & (D3 & D4 & D5 & D6) & Hbok & HT & Hlv & Hone & Hab). fold disk in D5, D6, Hlv, Hone, Hab.
+  assert (Hidx : forall L, idx L = idxs disk L) by reflexivity.
+  (* levels that exist *)
+  assert (Hlev : forall L j c, nth_error (idxs disk L) j = Some c -> (1 <= L <= T)%nat).
+  { intros L j c Hj. assert (Hin : In c (idxs disk L)) by (eapply nth_error_In; eauto).
+    destruct (Nat.le_gt_cases L T) as [Hle|Hgt].
+    - split; auto. apply idxs_In in Hin. destruct Hin as (Hin & Hk). destruct (D6 c Hin) as (_ & [Hd|Hl]); [congruence|].
+      unfold py_chunk_level in Hl. rewrite Hk in Hl. exact Hl.
+    - destruct (Hab L Hgt) as (E & _). rewrite E in Hin. destruct Hin. }
+  split; [|split].
+  - intros L j c Hj. rewrite Hidx in *. pose proof (Hlev L j c Hj) as HL.
+    destruct (Hlv L HL) as ((Hck & _) & _). destruct (Hck j c Hj) as (C1 & C2 & C3 & C4 & _).
+    split; [lia|]. split; [rewrite C1, py_span_eq by lia; reflexivity|]. split; [exact C2|]. split; [exact C3|]. split; [exact C4|].
+    intros k o Ho. exact (fin_entry_target d t0 Hcons st blks T Hfin L j c k o HL Hj Ho).
+  - intros i c L Hi Hk.
+    assert (Hin : In c (idxs disk L)) by (apply idxs_In; split; [eapply nth_error_In; eauto|exact Hk]).
+    destruct (In_nth_error _ _ Hin) as (j & Hj). pose proof (Hlev L j c Hj) as HL.
+    destruct (Hlv L HL) as ((Hck & _) & _). destruct (Hck j c Hj) as (_ & _ & _ & _ & i' & s & Hi' & Hs & K1 & K2 & _).
+    assert (i' = i) by (eapply nth_unique; eauto; apply (fin_nodup d t0 st blks T Hfin)). subst i'.
+    exists s. auto.
+  - destruct (fin_top d t0 st blks T Hfin) as (ctop & Etop & _ & _ & Hintop). fold disk in Etop.
+    exists T, ctop. split; [exact HT|]. split; [exact Etop|].
+    destruct (Hlv T ltac:(lia)) as ((Hck & _ & Hh) & _). rewrite Etop in Hh, Hck.
+    split; [exact Hh|]. split.
+    { destruct (Hck 0%nat ctop eq_refl) as (C1 & _). rewrite C1. cbn. lia. }
+    split; [exact Hab|]. split.
+    { intros L HL. destruct (Hlv L HL) as ((_ & _ & Hh') & Hne). destruct (idxs disk L) as [|f r] eqn:E; [congruence|].
+      exists f. rewrite Hidx, E. split; [reflexivity|exact Hh']. }
+    split.
+    { intros c Hc Hk. destruct (D5 c Hc Hk) as (i & Hi). unfold ents in Hi. apply nth_error_In in Hi.
+      apply in_concat in Hi. destruct Hi as (l & Hl & Ho). apply in_map_iff in Hl. destruct Hl as (p & <- & Hp'). exists p. auto. }
+    intros L c HL Hc. destruct (In_nth_error _ _ Hc) as (j & Hj). rewrite Hidx in Hj.
+    pose proof (fin_srcN d t0 st blks T Hfin (S L) ltac:(lia)) as Hsr. fold disk in Hsr. cbn [pred] in Hsr.
+    assert (Hi : nth_error (ents disk (S L)) j = Some (pc_off c)) by (rewrite Hsr; apply map_nth_error; exact Hj).
+    unfold ents in Hi. apply nth_error_In in Hi. apply in_concat in Hi. destruct Hi as (l & Hl & Ho).
+    apply in_map_iff in Hl. destruct Hl as (p & <- & Hp'). exists p. auto.
+Qed.
+
+(* a cache that earlier reads of OTHER signals, or a fresh reader, can have left *)
+Definition py_cache_foreign (sig : Z) (c : py_cache) : Prop := cc_meta c <> 4096 + sig \/ cc_off c = 0.
+
+Lemma foreign_cache_ok : forall st sig c, py_cache_foreign sig c -> cache_ok st sig c.
+Proof. intros st sig c [H|H] Hm Ho; congruence. Qed.
+
+Theorem pyr_seek_correct : forall d t0 pos0 pre n req post st sig cache starts x,
+  py_consistent d -> 0 < pos0 -> py_ops_full d pre -> py_ops_skip post -> 1 <= n <= py_spd d ->
+  py_run d t0 pos0 (pre ++ PyBlk n req :: post) = PyOk st ->
+  0 <= sig < 256 -> py_cache_foreign sig cache ->
+  let disk := pw_disk st in
+  let heads := pw_heads st in
+  let blks := py_blocks (pre ++ PyBlk n req :: post) in
+  0 <= x < py_total blks ->
+  let i := Z.to_nat (x / py_spd d) in
+  (exists c1, py_fsr_seek d disk heads 1 (t0 + x) = PyOk (pc_off c1) /\ In c1 disk /\ pc_kind c1 = PyIndex 1 /\
+              pc_ts c1 <= t0 + x < pc_ts c1 + pc_count c1 * py_spd d) /\
+  exists m om, nth_error blks i = Some (m, om) /\ 0 <= x - Z.of_nat i * py_spd d < m /\
+    let r := fst (py_rd_data0 d disk heads sig (py_reads d disk heads sig cache starts) (t0 + x)) in
+    if (om : bool) then r = PyOk (PyOmitted (t0 + Z.of_nat i * py_spd d) (py_sdf d * (m / py_sdf d)))
+    else exists cd, r = PyOk (PyStored cd) /\ In cd disk /\ pc_kind cd = PyData /\
+                    pc_ts cd = t0 + Z.of_nat i * py_spd d /\ pc_count cd = m.
+Proof.
+  intros d t0 pos0 pre n req post st sig cache starts x Hcons Hp Hpre Hpost Hn Hrun Hsig Hcache disk heads blks Hx i.
+  destruct (run_Fin d t0 pos0 pre n req post st Hcons Hp Hpre Hpost Hn Hrun) as (T & Hfin). fold blks in Hfin.
+  pose proof Hfin as (_ & _ & _ & HT & _).
+  assert (Hi0 : 0 <= x / py_spd d) by (apply Z.div_pos; destruct Hcons as (_ & ? & _); lia).
+  split.
+  - destruct (fsr_seek_ok d t0 Hcons st blks T Hfin x Hx) as (c1 & Hc1 & Hs). exists c1. split; [exact Hs|].
+    assert (Hin : In c1 (idxs (pw_disk st) 1)) by (eapply nth_error_In; eauto). apply idxs_In in Hin. destruct Hin as (Hin & Hk).
+    split; [exact Hin|]. split; [exact Hk|].
+    assert (Hjx : Z.of_nat (Z.to_nat (x / py_span d 1)) = x / py_span d 1).
+    { apply Z2Nat.id. apply Z.div_pos; [lia|]. apply py_span_pos; auto. }
+    destruct (descend d t0 Hcons st blks T Hfin 1 _ c1 x ltac:(lia) Hx Hc1 Hjx) as (Hidx & Hb & _). rewrite py_step_1 in *.
+    destruct (fin_l1 d t0 st blks T Hfin _ c1 Hc1) as (C1 & _). rewrite Hjx in C1.
+    pose proof (py_span_pos d 1 Hcons ltac:(lia)) as Hsp.
+    pose proof Hcons as (_ & Hspd & _).
+    pose proof (Z.div_mod x (py_spd d) ltac:(lia)) as E1. pose proof (Z.mod_pos_bound x (py_spd d) Hspd) as B1.
+    pose proof (Z.div_mod x (py_span d 1)) as E2.
+    specialize (E2 ltac:(lia)). pose proof (Z.mod_pos_bound x (py_span d 1) Hsp) as B2.
+    split; [rewrite C1; lia|].
+    set (idx := Z.quot (t0 + x - pc_ts c1) (py_spd d)) in *.
+    assert (x / py_spd d + 1 <= x / py_span d 1 * py_cap d 1 + pc_count c1) by lia.
+    assert ((x / py_spd d + 1) * py_spd d <= (x / py_span d 1 * py_cap d 1 + pc_count c1) * py_spd d) by (apply Z.mul_le_mono_nonneg_r; lia).
+    rewrite C1. rewrite py_span_eq, py_step_1 in * by lia. lia.
+  - destruct (block_of d t0 Hcons st blks T Hfin x Hx) as (m & om & Hm & Hpos & Hmb & _).
+    exists m, om. split; [exact Hm|]. split; [unfold i; rewrite Z2Nat.id by lia; exact Hpos|]. subst i.
+    pose proof (reads_cache_ok d t0 st blks T Hfin sig starts cache (foreign_cache_ok st sig cache Hcache)) as Hok.
+    destruct (rd_data0_ok d t0 Hcons st blks T Hfin sig _ x Hsig Hok Hx) as (Hr & _).
+    cbv zeta. fold disk heads in Hr. rewrite Hr. unfold block_at. rewrite Hm.
+    destruct om; [reflexivity|].
+    destruct (fin_src1 d t0 st blks T Hfin) as (Hl & Hsrc).
+    destruct (nth_error_ex _ (ents (pw_disk st) 1) (Z.to_nat (x / py_spd d))) as (o & Ho); [rewrite Hl; eapply nth_error_lt; eauto|].
+    destruct (Hsrc _ o m false Ho Hm) as (cd & Hin & Hoff & Hk & Hts & Hc).
+    rewrite (nth_error_nth' _ _ _ _ 0 Ho), <- Hoff.
+    destruct (find_In (pw_disk st) cd (fin_nodup d t0 st blks T Hfin) Hin) as (nx & ->).
+    exists cd. auto.
+Qed.
+
+Theorem pyr_length_general : forall d t0 pos0 pre n req post st,
+  py_consistent d -> 0 < pos0 -> py_ops_full d pre -> py_ops_skip post -> 1 <= n <= py_spd d ->
+  py_run d t0 pos0 (pre ++ PyBlk n req :: post) = PyOk st ->
+  py_fsr_length d (pw_disk st) (pw_heads st) =
+    PyOk (py_total (py_blocks (pre ++ PyBlk n req :: post)) -
+          (if req && negb (py_nilb (py_blocks pre)) then n mod py_sdf d else 0)).
+Proof.
+  intros d t0 pos0 pre n req post st Hcons Hp Hpre Hpost Hn Hrun.
+  destruct (run_Fin d t0 pos0 pre n req post st Hcons Hp Hpre Hpost Hn Hrun) as (T & Hfin).
+  rewrite (fsr_length_ok d t0 Hcons st _ T Hfin). f_equal. f_equal.
+  assert (Hb : forall a s, py_blocks_from s (a ++ PyBlk n req :: post) =
+              py_blocks_from s a ++ [(n, req && (s || negb (py_nilb (py_blocks_from s a))))]).
+  { induction a as [|o a IH]; intro s; cbn [app py_blocks_from].
+    - assert (Hsk : forall s', py_blocks_from s' post = []).
+      { clear - Hpost. induction post as [|o r IH]; intro s'; [reflexivity|]. inversion Hpost; subst. destruct o; [contradiction|]. cbn. apply IH; auto. }
+      rewrite Hsk. cbn. rewrite orb_false_r. reflexivity.
+    - destruct o as [m r|k]; cbn [py_blocks_from]; [|apply IH]. rewrite IH. cbn [app py_nilb negb]. rewrite orb_true_r. cbn. reflexivity. }
+  unfold py_blocks. rewrite Hb, last_last. cbn [fst snd orb]. reflexivity.
+Qed.
+
+Theorem pyr_length_correct : forall d t0 pos0 pre n req post st,
+  py_consistent d -> 0 < pos0 -> py_ops_full d pre -> py_ops_skip post -> 1 <= n <= py_spd d ->
+  py_run d t0 pos0 (pre ++ PyBlk n req :: post) = PyOk st ->
+  (req = false \/ py_blocks pre = [] \/ n mod py_sdf d = 0) ->
+  py_fsr_length d (pw_disk st) (pw_heads st) = PyOk (py_total (py_blocks (pre ++ PyBlk n req :: post))).
+Proof.
+  intros d t0 pos0 pre n req post st Hcons Hp Hpre Hpost Hn Hrun Hg.
+  rewrite (pyr_length_general d t0 pos0 pre n req post st) by auto. f_equal. rewrite <- (Z.sub_0_r (py_total _)) at 2. f_equal.
+  destruct Hg as [ -> | [ -> | -> ] ].
+  - reflexivity.
+  - cbn. rewrite andb_false_r. reflexivity.
+  - destruct (req && _); reflexivity.
+Qed.
+
+Theorem pyr_cache_transparent : forall d t0 pos0 pre n req post st sig cache starts x,
+  py_consistent d -> 0 < pos0 -> py_ops_full d pre -> py_ops_skip post -> 1 <= n <= py_spd d ->
+  py_run d t0 pos0 (pre ++ PyBlk n req :: post) = PyOk st ->
+  0 <= sig < 256 -> py_cache_foreign sig cache ->
+  0 <= x < py_total (py_blocks (pre ++ PyBlk n req :: post)) ->
+  fst (py_rd_data0 d (pw_disk st) (pw_heads st) sig (py_reads d (pw_disk st) (pw_heads st) sig cache starts) (t0 + x)) =
+  fst (py_rd_data0 d (pw_disk st) (pw_heads st) sig py_cache0 (t0 + x)).
+Proof.
+  intros d t0 pos0 pre n req post st sig cache starts x Hcons Hp Hpre Hpost Hn Hrun Hsig Hcache Hx.
+  destruct (run_Fin d t0 pos0 pre n req post st Hcons Hp Hpre Hpost Hn Hrun) as (T & Hfin).
+  pose proof (reads_cache_ok d t0 st _ T Hfin sig starts cache (foreign_cache_ok st sig cache Hcache)) as Hok.
+  destruct (rd_data0_ok d t0 Hcons st _ T Hfin sig _ x Hsig Hok Hx) as (-> & _).
+  assert (Hok0 : cache_ok st sig py_cache0) by (apply foreign_cache_ok; right; reflexivity).
+  destruct (rd_data0_ok d t0 Hcons st _ T Hfin sig _ x Hsig Hok0 Hx) as (-> & _). reflexivity.
+Qed.
+
+
+(* the writer never overflows the index / summary buffer of a level: its only possible fault is
+   jls_core_fsr_summaryN(16) (more than 15 summary levels) *)
+Theorem pyr_writer_faults_only_level_oob : forall d t0 pos0 pre n req post e,
+  py_consistent d -> 0 < pos0 -> py_ops_full d pre -> py_ops_skip post -> 1 <= n <= py_spd d ->
+  py_run d t0 pos0 (pre ++ PyBlk n req :: post) = PyErr e -> e = PE_Fault PF_LevelOOB.
+Proof.
+  intros d t0 pos0 pre n req post e Hcons Hp Hpre Hpost Hn Hrun.
+  pose proof (run_total d t0 Hcons pre n req post pos0 Hp Hpre Hpost Hn) as H. rewrite Hrun in H. exact H.
+Qed.
+
+(* ------------------------------------------------------------------ 7. witnesses and examples *)
+Lemma py_consistentb_ok : forall d, py_consistentb d = true -> py_consistent d.
+Proof.
+  intros d H. unfold py_consistentb in H. repeat (apply andb_true_iff in H; destruct H as (H & ?)).
+  unfold py_consistent. repeat split; try (apply Z.ltb_lt; assumption); try (apply Z.eqb_eq; assumption).
+Qed.
+
+Definition py_ex_def : py_def := {| py_spd := 32; py_sdf := 16; py_eps := 10; py_sumdf := 10 |}.
+
+(* the recorded known finding: omission requested while the last block is not a whole number of
+   summary entries: the reported length is short by (n mod sample_decimate_factor) *)
+Lemma pyr_length_omit_partial_refuted :
+  exists d t0 pos0 pre n req post st,
+    py_consistent d /\ 0 < pos0 /\ py_ops_full d pre /\ py_ops_skip post /\ 1 <= n <= py_spd d /\
+    py_run d t0 pos0 (pre ++ PyBlk n req :: post) = PyOk st /\
+    py_total (py_blocks (pre ++ PyBlk n req :: post)) = 40 /\
+    py_fsr_length d (pw_disk st) (pw_heads st) = PyOk 32.
+Proof.
+  exists py_ex_def, 0, 1, [PyBlk 32 false], 8, true, [].
+  destruct (py_run py_ex_def 0 1 ([PyBlk 32 false] ++ [PyBlk 8 true])) as [st|e] eqn:E; [|vm_compute in E; discriminate].
+  exists st. split; [apply py_consistentb_ok; reflexivity|]. split; [lia|]. split; [repeat constructor|]. split; [constructor|].
+  split; [cbn; lia|]. split; [reflexivity|]. split; [reflexivity|].
+  vm_compute in E. injection E as <-. vm_compute. reflexivity.
+Qed.
+
+Lemma pyr_pyramid_example :
+  let d := {| py_spd := 32; py_sdf := 16; py_eps := 10; py_sumdf := 10 |} in
+  let pre := flat_map (fun k => [PyBlk 32 (Nat.eqb (k mod 3) 2); PySkip (Z.of_nat k)]) (seq 0 57) in
+  py_consistent d /\
+  Forall (fun o => match o with PyBlk m _ => m = py_spd d | PySkip k => 0 <= k end) pre /\
+  exists st, py_run d 5 7 (pre ++ PyBlk 8 false :: [PySkip 3]) = PyOk st /\
+    length (pw_disk st) = 69%nat /\
+    pw_heads st = [7; 17; 1237; 1673] /\
+    py_total (py_blocks (pre ++ PyBlk 8 false :: [PySkip 3])) = 1832 /\
+    py_fsr_length d (pw_disk st) (pw_heads st) = PyOk 1832 /\
+    py_fsr_seek d (pw_disk st) (pw_heads st) 1 (5 + 1831) = PyOk 1669 /\
+    fst (py_rd_data0 d (pw_disk st) (pw_heads st) 1 py_cache0 (5 + 1831)) =
+      PyOk (PyStored {| pc_off := 1665; pc_kind := PyData; pc_ts := 5 + 57 * 32; pc_count := 8; pc_entries := [] |}) /\
+    fst (py_rd_data0 d (pw_disk st) (pw_heads st) 1 py_cache0 (5 + 2 * 32 + 31)) = PyOk (PyOmitted (5 + 2 * 32) 32).
+Proof.
+  intros d pre. split; [apply py_consistentb_ok; reflexivity|]. split.
+  { apply Forall_forall. intros o Ho. unfold pre in Ho. apply in_flat_map in Ho. destruct Ho as (k & _ & [<-|[<-|[]]]); cbn; lia. }
+  destruct (py_run d 5 7 (pre ++ PyBlk 8 false :: [PySkip 3])) as [st|e] eqn:E; [|vm_compute in E; discriminate].
+  exists st. split; [reflexivity|]. vm_compute in E. injection E as <-. vm_compute. repeat split; reflexivity.
+Qed.
+
+(* level[16] is reached when the fan-out is 1 (summary_decimate_factor 1, which jls_core_signal_def_align
+   excludes by its minimum of 10; with the minimum it takes cap1 * 10^14 blocks) *)
+Lemma pyr_level_oob_example :
+  let d := {| py_spd := 10; py_sdf := 10; py_eps := 10; py_sumdf := 1 |} in
+  py_consistent d /\ py_run d 0 1 (repeat (PyBlk 10 false) 9 ++ [PyBlk 10 false]) = PyErr (PE_Fault PF_LevelOOB).
+Proof. intro d. split; [apply py_consistentb_ok; reflexivity|vm_compute; reflexivity]. Qed.
